@@ -29,8 +29,12 @@ Definition details_ok_b (n : string) (r : reply) (body : obj) : bool :=
   | Some (JObj e) =>
       match lookup "http_status_code" e with
       | Some (JNum l) => str_eqb l (z_lit (r_code r)) | _ => false end &&
-      (str_eqb (r_body r) "" ||
-       match lookup "http_body" e with Some (JStr b) => str_eqb b (r_body r) | _ => false end)
+      (* ... and that body: an empty body is an absent (omitempty) or empty http_body *)
+      match lookup "http_body" e with
+      | Some (JStr b) => str_eqb b (r_body r)
+      | None => str_eqb (r_body r) ""
+      | Some _ => false
+      end
   | _ => false
   end.
 
@@ -79,3 +83,78 @@ Definition spec_multi_b (ms : list (mode * reply * option obj)) (o : cobs) (raw 
 
 (* Prop forms used by the theorems *)
 Definition raw_of (o : cobs) : string := match c_body o with BRaw s => s | BJson _ => "" end.
+
+(* ======================================================================================
+   Extension: the property over an endpoint built by the default factory (one or several
+   backends, optional flatmap / static stages) as seen through any router.
+   ====================================================================================== *)
+
+Definition b_ok (b : backend) : bool := let '(_, r, _) := b in ok_status (r_code r).
+Definition b_failed (b : backend) : bool :=
+  let '(_, r, d) := b in
+  negb (ok_status (r_code r)) || match d with None => true | Some _ => false end.
+
+(* static data is DECLARED to replace or extend the answer.  A strategy other than "success"
+   and "complete" also applies to a failed request: the client then gets the declared data
+   (status 200) instead of the bare error status, by configuration. *)
+Definition static_on_failure (st : option (string * obj)) : bool :=
+  match st with
+  | Some (n, _) => negb (str_eqb n "success" || str_eqb n "complete")
+  | None => false
+  end.
+
+Definition static_keys (st : option (string * obj)) : list string :=
+  match st with Some (_, d) => keys d | None => [] end.
+
+Definition not_static (sk : list string) (d : obj) : obj :=
+  filter (fun kv => negb (str_mem (fst kv) sk)) d.
+
+Definition spec_endpoint_b (rt : router) (epx : obj) (b0 : backend) (rest : list backend)
+           (o : cobs) (raw : string) : bool :=
+  let ms := b0 :: rest in
+  let st := static_cfg epx in
+  let sk := static_keys st in
+  let anyfail := existsb b_failed ms in
+  (* default mode: none of a failing backend's body reaches the client *)
+  forallb (fun b : backend => let '(m, r, _) := b in
+             ok_status (r_code r) || match m with MDefault => no_leak_b r raw | _ => true end) ms &&
+  (* a failed backend: the answer is flagged incomplete *)
+  (negb anyfail || str_eqb (c_completed o) "false") &&
+  (* 200/201: decoded and used - the data is delivered (also next to failing siblings) *)
+  forallb (fun b : backend => let '(_, r, d) := b in
+             negb (ok_status (r_code r)) ||
+             match d with
+             | Some dd =>
+                 let dd' := not_static sk dd in
+                 Nat.eqb (List.length dd') 0 ||
+                 ((c_status o =? 200)%Z &&
+                  match body_obj o with Some body => carries_b dd' body | None => false end &&
+                  (anyfail || str_eqb (c_completed o) "true"))
+             | None => true
+             end) ms &&
+  (* return_error_details: error_<name> holds the status and the body *)
+  forallb (fun b : backend => let '(m, r, _) := b in
+             ok_status (r_code r) ||
+             match m with
+             | MDetails n =>
+                 str_mem ("error_" ++ n)%string sk ||
+                 match body_obj o with Some body => details_ok_b n r body | None => false end
+             | _ => true
+             end) ms &&
+  (* a sole backend: 500 by default, exactly its status with return_error_code *)
+  match rest with
+  | [] =>
+      let '(m, r, d) := b0 in
+      ok_status (r_code r) || static_on_failure st ||
+      match m with
+      | MDefault => (c_status o =? 500)%Z
+      | MErrorCode => (c_status o =? r_code r)%Z
+      | MDetails _ => true
+      end
+  | _ => true
+  end &&
+  (* without stages a sole backend is the first version's oracle *)
+  match rest, st with
+  | [], None => let '(m, r, d) := b0 in spec_single_b m r d o raw
+  | _, _ => true
+  end.
